@@ -8,11 +8,31 @@
      match_place            -> match_place     (id / tag test, FIRST place that fits, then its LATEST fitting window)
      try_match_point_job    -> try_match_job   (customer-job branch: single job, or multi job = first sub-job that matches,
                                                 refused when the sub-jobs carry fewer distinct tags than there are sub-jobs)
-   vrp-core/src/models/common/domain.rs :: TimeWindow::intersects (inclusive), TimeSpan::to_time_window
+     try_match_point_job    -> try_match_point_job  (whole dispatch on the activity type: departure / arrival -> no job,
+                                                customer types -> job index lookup + try_match_job with the three error
+                                                exits, "break" | "reload" | "recharge" -> the conditional jobs
+                                                "<vehicle>_<type>_<shift>_<idx>", idx = 1, 2, .. while the index knows the
+                                                id (`take_while`), singles only, FIRST one match_place accepts with
+                                                is_job_activity = false (tag test, id test skipped); unknown type -> error)
+   vrp-core/src/models/common/domain.rs :: TimeWindow::intersects (inclusive on both ends),
+     TimeSpan::to_time_window (Window: as is; Offset: [date + start, date + end]),
+     TimeSpan::intersects   -> span_intersects  (`self.to_time_window(date).intersects(other)`, for BOTH span kinds)
+   vrp-pragmatic/src/format/solution/initial_reader.rs:
+     try_insert_activity    -> read_acts       (commute / transit refused, `added_jobs` with the double-assignment guard for
+                                                single jobs, the matched place appended in document order with the
+                                                activity's time as schedule)
+     read_init_solution     -> read_init       (actor lookup by (vehicle id, type id, shift index), tours in order sharing
+                                                `added_jobs`, listed unassigned jobs (unknown id / no reason -> error), then
+                                                every job of the problem that was not added is unassigned)
+   vrp-pragmatic/src/format/problem/job_reader.rs :: read_optional_breaks / read_specific_job_places only as far as they
+     name the conditional jobs (vjob_id); the singles themselves are inputs (built by the plugin from the problem).
+   solution_writer.rs :: create_tour only as far as it decides type / job id / tag / time of a written activity (write_act).
    Times are integer seconds (generated problems use integer matrices / durations; format_time truncates to seconds);
-   an open window end (f64::MAX) is None.  Locations are matrix indices.
-   Not modelled: break / reload / recharge activities, commute, read_init_solution's registry bookkeeping.
-   run_match is the entry point of the correspondence. *)
+   an open window end (f64::MAX) is None.  Locations are matrix indices; a place without location (break) is None.
+   Jobs are identified by their job-index key (Rust: Arc pointer identity of the indexed job).
+   Not modelled: commute data, create_core_route (start / end schedule), Registry, coord-index failures.
+   run_match / run_read_init are the entry points of the correspondence. *)
+From Coq Require Import DecimalString Decimal.
 From VRP Require Import Base.Tac Base.Json.
 Open Scope string_scope.
 
@@ -27,10 +47,14 @@ Definition intersects (a b : win) : bool := le_zo (fst a) (snd b) && le_zo (fst 
 Definition to_window (start : Z) (sp : span) : win :=
   match sp with SWindow s e => (s, e) | SOffset s e => (start + s, Some (start + e)) end.
 
+(* TimeSpan::intersects(date, other) = self.to_time_window(date).intersects(other): inclusive for windows and offsets *)
+Definition span_intersects (start : Z) (sp : span) (w : win) : bool := intersects (to_window start sp) w.
+
 Definition loc_ok (p : place) (loc : Z) : bool := match p_loc p with None => true | Some l => Z.eqb l loc end.
-(* a place fits an activity: location and some time span *)
+(* a place fits an activity: location and some time span (get_job_tag spells the test `to_time_window(..).intersects(..)`,
+   match_place `TimeSpan::intersects(..)`: the same composition) *)
 Definition accepts (p : place) (loc start : Z) (w : win) : bool :=
-  loc_ok p loc && existsb (fun sp => intersects (to_window start sp) w) (p_times p).
+  loc_ok p loc && existsb (fun sp => span_intersects start sp w) (p_times p).
 
 Definition get_job_tag (s : single) (loc : Z) (w : win) (start : Z) : option string :=
   option_map snd
@@ -62,7 +86,7 @@ Definition match_place (s : single) (is_job : bool) (c : actx) : option (nat * Z
   if same_tags tag (c_tag c) && (ids || negb is_job) then
     match find_idx (fun p => accepts p (c_loc c) (c_start c) (act_win c)) (s_places s) 0%nat with
     | Some (idx, p) =>
-        match rfind (fun sp => intersects (to_window (c_start c) sp) (act_win c)) (p_times p) with
+        match rfind (fun sp => span_intersects (c_start c) sp (act_win c)) (p_times p) with
         | Some (SWindow ws we) => Some (idx, c_loc c, p_dur p, (ws, we))
         | Some (SOffset _ _) => Some (idx, c_loc c, p_dur p, (snd (c_time c) - p_dur p, Some (snd (c_time c))))
         | None => None        (* `.unwrap()` after a successful `any`: unreachable *)
@@ -97,3 +121,290 @@ Definition written_actx (s : single) (start loc : Z) (w : win) (ts te : Z) : act
 
 Definition run_match (multi : bool) (ss : list single) (c : actx) : option (nat * (nat * Z * Z * win)) :=
   try_match_job (if multi then JMulti ss else match ss with s :: _ => JSingle s | [] => JMulti [] end) c.
+
+
+(* ------------------------------------------------------------------------------------------------------------
+   vehicle-specific activities (break / reload / recharge), the dispatch of try_match_point_job, read_init_solution *)
+Definition dec_nat (n : nat) : string := NilEmpty.string_of_uint (Nat.to_uint n).
+(* job_reader.rs: format!("{vehicle_id}_{job_type}_{shift_index}_{idx}"), the matcher builds the same string *)
+Definition vjob_id (vid ty : string) (shift idx : nat) : string :=
+  vid ++ "_" ++ ty ++ "_" ++ dec_nat shift ++ "_" ++ dec_nat idx.
+
+Definition job_index := list (string * job).
+Fixpoint lookup (ix : job_index) (k : string) : option job :=
+  match ix with [] => None | (k', j) :: r => if String.eqb k k' then Some j else lookup r k end.
+
+(* (1..).map(id).map(get).take_while(is_some).filter_map(as_single); fuel: the index has finitely many keys *)
+Fixpoint vcands (ix : job_index) (vid ty : string) (shift idx fuel : nat) : list (string * single) :=
+  match fuel with
+  | O => []
+  | S f => match lookup ix (vjob_id vid ty shift idx) with
+           | None => []
+           | Some (JSingle s) => (vjob_id vid ty shift idx, s) :: vcands ix vid ty shift (S idx) f
+           | Some (JMulti _) => vcands ix vid ty shift (S idx) f
+           end
+  end.
+Fixpoint first_vmatch (cs : list (string * single)) (c : actx) : option (string * (nat * Z * Z * win)) :=
+  match cs with
+  | [] => None
+  | (k, s) :: r => match match_place s false c with Some m => Some (k, m) | None => first_vmatch r c end
+  end.
+Definition try_match_vehicle_job (ix : job_index) (vid ty : string) (shift : nat) (c : actx) :=
+  first_vmatch (vcands ix vid ty shift 1%nat (S (List.length ix))) c.
+
+(* a written activity as the reader sees it: type, has a commute, sits on a transit stop, resolved context
+   (location = activity.location or the stop's, time = activity.time or the stop's schedule) *)
+Record wact := mk_wact { w_type : string; w_commute : bool; w_transit : bool; w_ctx : actx }.
+Inductive rerr := ECommute | ETransit | EUnknownJob | EMultiTags | ECannotMatchJob | ECannotMatchVehicle | EUnknownType
+                | EDouble | ENoVehicle | EUnknownUnassigned | ENoReason.
+(* Ok(None) | Ok(Some(JobInfo)): index key, is it a Job::Single, sub-job position, reconstructed place *)
+Inductive minfo := MNone | MJob (key : string) (is_single : bool) (sub : nat) (m : nat * Z * Z * win).
+
+Definition str_in (x : string) (l : list string) : bool := existsb (String.eqb x) l.
+Definition is_terminal (ty : string) : bool := str_in ty ["departure"; "arrival"].
+Definition is_customer (ty : string) : bool := str_in ty ["pickup"; "delivery"; "replacement"; "service"].
+Definition is_vehicle_specific (ty : string) : bool := str_in ty ["break"; "reload"; "recharge"].
+
+Definition try_match_point_job (ix : job_index) (vid : string) (shift : nat) (a : wact) : rerr + minfo :=
+  let c := w_ctx a in
+  let ty := w_type a in
+  if is_terminal ty then inr MNone
+  else if is_customer ty then
+    match lookup ix (c_job_id c) with
+    | None => inl EUnknownJob
+    | Some (JSingle s) =>
+        match first_match [s] c 0%nat with
+        | Some (k, m) => inr (MJob (c_job_id c) true k m)
+        | None => inl ECannotMatchJob
+        end
+    | Some (JMulti ss) =>
+        let tags := dedup_s (flat_map (fun s => map snd (s_tags s)) ss) in
+        if Nat.ltb (List.length tags) (List.length ss) then inl EMultiTags
+        else match first_match ss c 0%nat with
+             | Some (k, m) => inr (MJob (c_job_id c) false k m)
+             | None => inl ECannotMatchJob
+             end
+    end
+  else if is_vehicle_specific ty then
+    match try_match_vehicle_job ix vid ty shift c with
+    | Some (k, m) => inr (MJob k true 0%nat m)
+    | None => inl ECannotMatchVehicle
+    end
+  else inl EUnknownType.
+
+(* a reconstructed activity: job key, sub-job, place index, location, duration, time window, schedule *)
+Record ract := mk_ract { r_key : string; r_sub : nat; r_place : nat; r_loc : Z; r_dur : Z; r_tw : win; r_arr : Z; r_dep : Z }.
+Definition ract_of (key : string) (sub : nat) (m : nat * Z * Z * win) (tm : Z * Z) : ract :=
+  match m with (i, l, d, w) => mk_ract key sub i l d w (fst tm) (snd tm) end.
+
+(* try_insert_activity over the activities of one tour, `added` = added_jobs *)
+Fixpoint read_acts (ix : job_index) (vid : string) (shift : nat) (acts : list wact) (added : list string)
+  : rerr + (list ract * list string) :=
+  match acts with
+  | [] => inr ([], added)
+  | a :: rest =>
+      if w_commute a then inl ECommute
+      else if w_transit a then inl ETransit
+      else match try_match_point_job ix vid shift a with
+           | inl e => inl e
+           | inr MNone => read_acts ix vid shift rest added
+           | inr (MJob key sg sub m) =>
+               if sg && str_in key added then inl EDouble
+               else match read_acts ix vid shift rest (key :: added) with
+                    | inl e => inl e
+                    | inr (rs, added') => inr (ract_of key sub m (c_time (w_ctx a)) :: rs, added')
+                    end
+           end
+  end.
+
+Record wtour := mk_wtour { t_vid : string; t_type : string; t_shift : nat; t_acts : list wact }.
+Definition actor_key := (string * string * nat)%type.
+Definition actor_eqb (a b : actor_key) : bool :=
+  match a, b with (v1, t1, s1), (v2, t2, s2) => String.eqb v1 v2 && String.eqb t1 t2 && Nat.eqb s1 s2 end.
+
+Fixpoint read_tours (ix : job_index) (actors : list actor_key) (tours : list wtour) (added : list string)
+  : rerr + (list (actor_key * list ract) * list string) :=
+  match tours with
+  | [] => inr ([], added)
+  | t :: rest =>
+      let key := (t_vid t, t_type t, t_shift t) in
+      if negb (existsb (actor_eqb key) actors) then inl ENoVehicle
+      else match read_acts ix (t_vid t) (t_shift t) (t_acts t) added with
+           | inl e => inl e
+           | inr (rs, added') =>
+               match read_tours ix actors rest added' with
+               | inl e => inl e
+               | inr (routes, added'') => inr ((key, rs) :: routes, added'')
+               end
+           end
+  end.
+
+(* the listed unassigned jobs: (job id, has at least one reason) *)
+Fixpoint read_unassigned (ix : job_index) (us : list (string * bool)) (added : list string) : rerr + (list string * list string) :=
+  match us with
+  | [] => inr ([], added)
+  | (k, has_reason) :: rest =>
+      match lookup ix k with
+      | None => inl EUnknownUnassigned
+      | Some _ =>
+          if negb has_reason then inl ENoReason
+          else match read_unassigned ix rest (k :: added) with
+               | inl e => inl e
+               | inr (l, added') => inr (k :: l, added')
+               end
+      end
+  end.
+
+Inductive rres := RErr (e : rerr) | ROk (routes : list (actor_key * list ract)) (unassigned : list string).
+(* all_jobs = problem.jobs.all() as index keys *)
+Definition read_init (ix : job_index) (actors : list actor_key) (all_jobs : list string)
+                     (tours : list wtour) (us : list (string * bool)) : rres :=
+  match read_tours ix actors tours [] with
+  | inl e => RErr e
+  | inr (routes, added) =>
+      match read_unassigned ix us added with
+      | inl e => RErr e
+      | inr (listed, added') => ROk routes (listed ++ filter (fun k => negb (str_in k added')) all_jobs)
+      end
+  end.
+
+(* ---- the writer's side: what create_tour puts on the activity of a job served by the solver ----
+   sact = an activity of the solver's tour: index key of its job, Some type for a vehicle-specific job (the written job id is
+   then the type), activity type, sub-job position, the single, the location, the time window the solver used
+   (place.time = span.to_time_window(departure of the tour)), arrival, duration.
+   service start = max(arrival, window start), service end = start + duration (no parking / commute). *)
+Record sact := mk_sact { sa_key : string; sa_vtype : option string; sa_type : string; sa_sub : nat; sa_single : single;
+                         sa_loc : Z; sa_win : win; sa_arr : Z; sa_dur : Z }.
+Definition sa_ts (a : sact) : Z := Z.max (sa_arr a) (fst (sa_win a)).
+Definition sa_te (a : sact) : Z := sa_ts a + sa_dur a.
+(* wstart: the departure create_tour hands to get_job_tag; rstart: the route start the READER derives from the document *)
+Definition write_act (wstart rstart : Z) (a : sact) : wact :=
+  mk_wact (sa_type a) false false
+          (mk_actx rstart (sa_loc a) (sa_ts a, sa_te a)
+                   (match sa_vtype a with Some ty => ty | None => sa_key a end)
+                   (get_job_tag (sa_single a) (sa_loc a) (sa_win a) wstart)).
+(* create_tour walks the tour by reload intervals (get_route_intervals: a reload OPENS an interval) and looks tags up with
+   `start.schedule.departure`, start = the tour's start for the first interval, the activity BEFORE the reload afterwards *)
+Definition is_reload (a : sact) : bool := String.eqb (sa_type a) "reload".
+Fixpoint write_acts (rstart wstart prev_dep : Z) (sas : list sact) : list wact :=
+  match sas with
+  | [] => []
+  | a :: r => let ws := if is_reload a then prev_dep else wstart in
+              write_act ws rstart a :: write_acts rstart ws (sa_te a) r
+  end.
+(* activities at the start location that directly follow the departure are merged into the departure stop and move its
+   `departure`; get_route_start_time (activity_matcher.rs) reads the route start from that field *)
+Fixpoint doc_route_start (cur start_loc : Z) (sas : list sact) : Z :=
+  match sas with
+  | a :: r => if Z.eqb (sa_loc a) start_loc then doc_route_start (sa_te a) start_loc r else cur
+  | [] => cur
+  end.
+Definition write_tour (start start_loc : Z) (sas : list sact) : list wact :=
+  write_acts (doc_route_start start start_loc sas) start start sas.
+
+(* ---- specification vocabulary of the round-trip theorems (Properties/C11.v) ----
+   what the reader should reconstruct for a solver activity: its own sub-job / place; the window itself for a time-window
+   span, the service interval for an offset span (match_place); the service interval as schedule *)
+Definition is_offset (sp : span) : bool := match sp with SOffset _ _ => true | SWindow _ _ => false end.
+Definition no_offsets (s : single) : bool := forallb (fun p => forallb (fun sp => negb (is_offset sp)) (p_times p)) (s_places s).
+Definition rebuilt_win (sp : span) (te dur : Z) : win :=
+  match sp with SWindow ws we => (ws, we) | SOffset _ _ => (te - dur, Some te) end.
+Definition expected_place (a : sact) (i : nat) (sp : span) : nat * Z * Z * win :=
+  (i, sa_loc a, sa_dur a, rebuilt_win sp (sa_te a) (sa_dur a)).
+Definition expected_ract (a : sact) (i : nat) (sp : span) : ract :=
+  ract_of (sa_key a) (sa_sub a) (expected_place a i sp) (sa_ts a, sa_te a).
+
+(* the solver served activity a of single s at place i (p) within span k (sp), the tour having departed at `start`:
+   arrival not after the end of the window (EQUALITY ALLOWED: the last moment), no other place of the single fits the
+   location at the window or at the service interval, no later span of the place touches the service interval *)
+Record placed (s : single) (start : Z) (a : sact) (i : nat) (p : place) (k : nat) (sp : span) : Prop := mk_placed {
+  pl_single : sa_single a = s;
+  pl_place : nth_error (s_places s) i = Some p;
+  pl_loc : loc_ok p (sa_loc a) = true;
+  pl_dur : p_dur p = sa_dur a;
+  pl_dur_nonneg : 0 <= sa_dur a;
+  pl_span : nth_error (p_times p) k = Some sp;
+  pl_win : sa_win a = to_window start sp;
+  pl_win_ok : le_zo (fst (sa_win a)) (snd (sa_win a)) = true;
+  pl_arr : le_zo (sa_arr a) (snd (sa_win a)) = true;
+  pl_other_places : forall j q, j <> i -> nth_error (s_places s) j = Some q ->
+      accepts q (sa_loc a) start (sa_win a) = false /\ accepts q (sa_loc a) start (sa_ts a, Some (sa_te a)) = false;
+  pl_later_spans : forall k' sp', (k < k')%nat -> nth_error (p_times p) k' = Some sp' ->
+      span_intersects start sp' (sa_ts a, Some (sa_te a)) = false }.
+
+(* writer (ws) and reader (rs) count offsets from the instant the solver used, or the single has no offset span *)
+Definition starts_agree (start ws rs : Z) (s : single) : Prop := (ws = start /\ rs = start) \/ no_offsets s = true.
+
+(* activity a, written with the instants ws / rs, is told apart from every candidate the reader tries before its own job *)
+Inductive well_written (ix : job_index) (vid : string) (shift : nat) (start ws rs : Z) (a : sact) (i : nat) (sp : span) : Prop :=
+| ww_single (s : single) (p : place) (k : nat) :
+    sa_vtype a = None -> is_customer (sa_type a) = true -> is_terminal (sa_type a) = false ->
+    lookup ix (sa_key a) = Some (JSingle s) -> s_id s = sa_key a -> sa_sub a = 0%nat ->
+    placed s start a i p k sp -> starts_agree start ws rs s ->
+    well_written ix vid shift start ws rs a i sp
+| ww_multi (ss : list single) (s : single) (p : place) (k : nat) :
+    sa_vtype a = None -> is_customer (sa_type a) = true -> is_terminal (sa_type a) = false ->
+    lookup ix (sa_key a) = Some (JMulti ss) ->
+    (List.length ss <= List.length (dedup_s (flat_map (fun s => map snd (s_tags s)) ss)))%nat ->
+    nth_error ss (sa_sub a) = Some s -> s_id s = sa_key a ->
+    (forall j s', (j < sa_sub a)%nat -> nth_error ss j = Some s' -> match_place s' true (w_ctx (write_act ws rs a)) = None) ->
+    placed s start a i p k sp -> starts_agree start ws rs s ->
+    well_written ix vid shift start ws rs a i sp
+| ww_vehicle (ty : string) (ss : list single) (s : single) (p : place) (k : nat) :
+    sa_vtype a = Some ty -> sa_type a = ty -> In ty ["break"; "reload"; "recharge"] -> sa_sub a = 0%nat ->
+    (forall j s', nth_error ss j = Some s' -> lookup ix (vjob_id vid ty shift (S j)) = Some (JSingle s')) ->
+    nth_error ss (Nat.pred (List.length ss)) = Some s -> sa_key a = vjob_id vid ty shift (List.length ss) ->
+    (forall j s', (S j < List.length ss)%nat -> nth_error ss j = Some s' -> match_place s' false (w_ctx (write_act ws rs a)) = None) ->
+    placed s start a i p k sp -> starts_agree start ws rs s ->
+    well_written ix vid shift start ws rs a i sp.
+
+(* a tour whose activities are all well written, with the instants write_acts threads through the reload intervals *)
+Inductive tour_ok (ix : job_index) (vid : string) (shift : nat) (start rs : Z) : Z -> Z -> list (sact * nat * span) -> Prop :=
+| tok_nil ws prev : tour_ok ix vid shift start rs ws prev []
+| tok_cons ws prev a i sp rest :
+    well_written ix vid shift start (if is_reload a then prev else ws) rs a i sp ->
+    tour_ok ix vid shift start rs (if is_reload a then prev else ws) (sa_te a) rest ->
+    tour_ok ix vid shift start rs ws prev ((a, i, sp) :: rest).
+
+(* keys of the Job::Single jobs (customer singles and the conditional jobs) served by a list of activities *)
+Definition is_single_key (ix : job_index) (k : string) : bool :=
+  match lookup ix k with Some (JSingle _) => true | _ => false end.
+
+Definition item_act (it : sact * nat * span) : sact := fst (fst it).
+Definition item_ract (it : sact * nat * span) : ract := expected_ract (fst (fst it)) (snd (fst it)) (snd it).
+Definition tour_keys (items : list (sact * nat * span)) : list string := map (fun it => sa_key (item_act it)) items.
+Definition single_keys (ix : job_index) (items : list (sact * nat * span)) : list string := filter (is_single_key ix) (tour_keys items).
+(* departure / arrival activities *)
+Definition terminals (l : list wact) : Prop :=
+  Forall (fun a => is_terminal (w_type a) = true /\ w_commute a = false /\ w_transit a = false) l.
+
+(* a tour of the solver: actor key, departure, start location, its job activities with the place index / span the solver
+   used, and the departure / arrival activities the writer puts around them *)
+Record stour := mk_stour { st_vid : string; st_type : string; st_shift : nat; st_start : Z; st_start_loc : Z;
+                           st_items : list (sact * nat * span); st_pre : list wact; st_post : list wact }.
+Definition st_acts (t : stour) : list sact := map item_act (st_items t).
+Definition doc_tour (t : stour) : wtour :=
+  mk_wtour (st_vid t) (st_type t) (st_shift t)
+           (st_pre t ++ write_tour (st_start t) (st_start_loc t) (st_acts t) ++ st_post t)%list.
+Definition stour_ok (ix : job_index) (actors : list actor_key) (t : stour) : Prop :=
+  existsb (actor_eqb (st_vid t, st_type t, st_shift t)) actors = true /\ terminals (st_pre t) /\ terminals (st_post t) /\
+  tour_ok ix (st_vid t) (st_shift t) (st_start t) (doc_route_start (st_start t) (st_start_loc t) (st_acts t))
+          (st_start t) (st_start t) (st_items t).
+Definition expected_route (t : stour) : actor_key * list ract := ((st_vid t, st_type t, st_shift t), map item_ract (st_items t)).
+Definition all_items (tours : list stour) : list (sact * nat * span) := flat_map st_items tours.
+
+(* correspondence entry: the job activities of a written tour as (type, job id, tag, route start, location, time) *)
+Definition wact_tuple (a : wact) :=
+  (w_type a, c_job_id (w_ctx a), c_tag (w_ctx a), c_start (w_ctx a), c_loc (w_ctx a), c_time (w_ctx a)).
+Definition run_write_tour (start start_loc : Z) (sas : list sact) := map wact_tuple (write_tour start start_loc sas).
+
+(* entry point of the correspondence: records flattened to tuples (key, sub, place, loc, dur, window, arrival, departure) *)
+Definition ract_tuple (r : ract) := (r_key r, r_sub r, r_place r, r_loc r, r_dur r, r_tw r, r_arr r, r_dep r).
+Inductive rres_t := TErr (e : rerr)
+                  | TOk (routes : list (actor_key * list (string * nat * nat * Z * Z * win * Z * Z))) (unassigned : list string).
+Definition run_read_init (ix : job_index) (actors : list actor_key) (all_jobs : list string)
+                         (tours : list wtour) (us : list (string * bool)) : rres_t :=
+  match read_init ix actors all_jobs tours us with
+  | RErr e => TErr e
+  | ROk routes u => TOk (map (fun kr => (fst kr, map ract_tuple (snd kr))) routes) u
+  end.
